@@ -1124,6 +1124,12 @@ class Envelope:
         if self.state is None:
             return self.fock.resize(new_dimensions)
 
+        to = None
+        if new_dimensions <= self.fock.dimensions:
+            # trace_out reorders the envelope, so it has to run before the
+            # layout is read
+            to = self.trace_out(self.fock)
+
         reshape_shape = [-1, -1]
         assert isinstance(self.fock.dimensions, int)
         assert isinstance(self.fock.index, int)
@@ -1146,7 +1152,6 @@ class Envelope:
                 self.fock.dimensions = new_dimensions
                 return True
             if new_dimensions < self.fock.dimensions:
-                to = self.trace_out(self.fock)
                 assert isinstance(to, jnp.ndarray)
                 num_quanta = num_quanta_vector(to)
                 if num_quanta >= new_dimensions:
@@ -1176,7 +1181,6 @@ class Envelope:
                 self.state = ps.reshape((self.dimensions, self.dimensions))
                 return True
             if new_dimensions <= self.fock.dimensions:
-                to = self.trace_out(self.fock)
                 assert isinstance(to, jnp.ndarray)
                 num_quanta = num_quanta_matrix(to)
                 if num_quanta >= new_dimensions:
